@@ -105,13 +105,22 @@ def run(ctx):
     r = ctx.rule("C15-R3", "POLARITY", "sections below this one are erased and re-printed in creation order: newest-first "
                  "registration x forward scan until self x reversal", reference=3)
     init = sec.methods["__init__"]
-    pop = sec.methods.get("_pop_stream_content_until_current_section")
-    ctx.require(pop is not None, "SectionOutput._pop_stream_content_until_current_section missing")
     reg = None
     for c in q.calls(init):
         if isinstance(c.func, ast.Attribute) and c.func.attr in ("insert", "append") and any(isinstance(a, ast.Name) and a.id == "self" for a in c.args):
             reg = c
     ctx.require(reg is not None, "a new section is not registered in the shared section list")
+    # the scanning method: the one that walks the kept section list (found by what it does, not by name)
+    kept_attr = None
+    for n in walk_no_nested(init.node):
+        if isinstance(n, ast.Assign) and any(is_self_attr(t) for t in n.targets) and norm(n.value) == norm(reg.func.value):
+            kept_attr = [t.attr for t in n.targets if is_self_attr(t)][0]
+    pop = None
+    for name, m in sec.methods.items():
+        if name != "__init__" and kept_attr and any(is_self_attr(x, kept_attr) for x in walk_no_nested(m.node)) and \
+                any(isinstance(n, ast.For) or (isinstance(n, ast.Subscript) and isinstance(n.slice, ast.Slice)) for n in walk_no_nested(m.node)):
+            pop = m
+    ctx.require(pop is not None, "no method of SectionOutput scans the shared section list")
     front = reg.func.attr == "insert" and isinstance(reg.args[0], ast.Constant) and reg.args[0].value == 0
     # the list registered into is the list scanned
     reg_list = norm(reg.func.value)
